@@ -2,7 +2,7 @@
    PARTIAL: proved for every value-level comparison of the analyser, for all inputs; the whole-document
    statement is REFUTED on the faithful model (witnesses below, replayed on the implementation: known findings). *)
 From Coq Require Import Permutation.
-From GS Require Import Base.Str Gen.GenDiffTables Tools.DiffTypes Tools.DiffSpec Tools.DiffModel Tools.DiffModelLemmas.
+From GS Require Import Base.Str Gen.GenDiffTables Tools.DiffTypes Tools.DiffSpec Tools.DiffModel Tools.DiffModelLemmas Tools.DiffExt Tools.DiffExtLemmas Tools.DiffIdentity Tools.DiffDocMirror.
 
 Theorem C14_int_bounds_mirror : forall n a b gt lt,
   mirror_code gt = lt -> mirror_code lt = gt ->
@@ -26,6 +26,27 @@ Theorem C14_required_mirror : forall r1 r2,
 Proof. exact check_required_mirror. Qed.
 Print Assumptions C14_required_mirror.
 
+(* vendor extensions: whatever is added from e1 to e2 is deleted from e2 to e1, key by key, at the very same location
+   (and vice versa), for every pair of extension tables, every location and every field prefix *)
+Theorem C14_extension_added_mirrors_deleted : forall e1 e2 l p, map flip_ext (check_added e1 e2 l p) = check_deleted e2 e1 l p.
+Proof. exact check_added_mirror. Qed.
+Print Assumptions C14_extension_added_mirrors_deleted.
+
+Theorem C14_extension_deleted_mirrors_added : forall e1 e2 l p, map flip_ext (check_deleted e1 e2 l p) = check_added e2 e1 l p.
+Proof. exact check_deleted_mirror. Qed.
+Print Assumptions C14_extension_deleted_mirrors_added.
+
+(* a changed value is reported both ways, at the same location (direction-less) *)
+Theorem C14_extension_changed_both_ways : forall e1 e2 l p, NoDup (keys e1) -> NoDup (keys e2) ->
+  forall d, In d (check_changed e1 e2 l p) <-> In d (check_changed e2 e1 l p).
+Proof. exact check_changed_sym. Qed.
+Print Assumptions C14_extension_changed_both_ways.
+
+Example C14_extension_nonvacuous :
+  check_added [(s "x-a", DInt 1)] [(s "x-a", DInt 1); (s "x-b", DStr (s "v"))] (node_loc (s "Spec")) [] <> [] /\
+  check_deleted [(s "x-a", DInt 1); (s "x-b", DStr (s "v"))] [(s "x-a", DInt 1)] (node_loc (s "Spec")) [] <> [].
+Proof. split; vm_compute; discriminate. Qed.
+
 Theorem C14_string_lists_swap : forall a b,
   diffs_to (Some a) (Some b) = (snd (diffs_to (Some b) (Some a)), fst (diffs_to (Some b) (Some a))).
 Proof. exact diffs_to_swap. Qed.
@@ -42,6 +63,33 @@ Proof. intros c H1 H2. destruct c; try reflexivity; contradiction. Qed.
 Theorem C14_mirror_involutive : forall c, c <> AddedRequiredProperty -> c <> DeletedDeprecatedEndpoint -> mirror_code (mirror_code c) = c.
 Proof. exact mirror_involutive_dir. Qed.
 Print Assumptions C14_mirror_involutive.
+
+(* ---------- document level, for the parts of the analysis that do not walk schemas ---------- *)
+(* endpoints: the multiset of (location, code) of B against A is the mirror of A against B — added <-> deleted at the
+   same (url, method) — when no endpoint that B alone has is deprecated (a deleted deprecated endpoint has a code of
+   its own, whose mirror is a plain addition) *)
+Theorem C14_doc_endpoints_mirror : forall um1 um2, no_deprecated um2 ->
+  Permutation (map lc_mirror (analyse_endpoints um1 um2)) (map lc (analyse_endpoints um2 um1)).
+Proof. exact endpoints_mirror. Qed.
+Print Assumptions C14_doc_endpoints_mirror.
+
+(* consumes / produces / schemes (and any pair of mirrored codes over two string lists), at one location *)
+Theorem C14_doc_string_lists_mirror : forall (x y : list str) (l : loc) (ca cd : code),
+  mirror_code ca = cd -> mirror_code cd = ca ->
+  let ad := diffs_to (Some x) (Some y) in let ad' := diffs_to (Some y) (Some x) in
+  Permutation (map lc_mirror (map (fun v => mk_diff l ca v) (fst ad) ++ map (fun v => mk_diff l cd v) (snd ad)))
+              (map lc (map (fun v => mk_diff l ca v) (fst ad') ++ map (fun v => mk_diff l cd v) (snd ad'))).
+Proof. exact list_pair_mirror. Qed.
+Print Assumptions C14_doc_string_lists_mirror.
+
+(* the tags of an operation that both documents have *)
+Theorem C14_doc_tags_mirror : forall (k : str * str) (t1 t2 : list str),
+  let ad := diffs_to (Some t1) (Some t2) in let ad' := diffs_to (Some t2) (Some t1) in
+  Permutation
+    (map lc_mirror (map (fun t => mk_diff (um_loc k) AddedTag (quote t)) (fst ad) ++ map (fun t => mk_diff (um_loc k) DeletedTag (quote t)) (snd ad)))
+    (map lc (map (fun t => mk_diff (um_loc k) AddedTag (quote t)) (fst ad') ++ map (fun t => mk_diff (um_loc k) DeletedTag (quote t)) (snd ad'))).
+Proof. exact tags_mirror. Qed.
+Print Assumptions C14_doc_tags_mirror.
 
 (* --- the whole-document statement is false of the faithful model --- *)
 Definition op0 (desc : str) : operation :=
